@@ -178,6 +178,12 @@ def build_pool(ctx, index):
         prep.append({**g, "save_as": {"mpi.hex": P(f"mpi{i}.hex")}})
     ops.append({"kind": "mpi-merge", "addr": 0x1000, "size": 192, "files": [P("mpi0.hex"), P("mpi1.hex")], "family": "mpi"})
     ops.append({"kind": "mpi-merge", "addr": 0x1000, "size": 96, "files": [P("mpi1.hex")], "family": "mpi"})
+    # a third record that overlaps both others with different bytes: merges naming it are refused - for every order of the inputs and every
+    # hash seed alike
+    g2 = {"kind": "mpi-generate", "vendor": "overlap.example", "cls": "Other", "addr": 0x1010, "size": 64, "dp": True, "iu": True, "sv": "update-and-boot", "family": "mpi"}
+    prep.append({**g2, "save_as": {"mpi.hex": P("mpi2.hex")}})
+    for fl in (["mpi0.hex", "mpi2.hex"], ["mpi2.hex", "mpi1.hex", "mpi0.hex"], ["mpi1.hex", "mpi2.hex"]):
+        ops.append({"kind": "mpi-merge", "addr": 0x1000, "size": 192, "files": [P(x) for x in fl], "family": "mpi", "expect_error": True})
     # caches
     ops.append({"kind": "cache-payloads", "eb": 16, "inputs": [f"#a,{P('blob1.bin')}", f"#b,{P('blob2.bin')}"], "family": "cache", "reads": [P("blob1.bin")]})
     ops.append({"kind": "cache-payloads", "eb": 64, "inputs": [f"#c,{P('blob0.bin')}"], "family": "cache"})
@@ -241,13 +247,18 @@ def build_pool(ctx, index):
         fh.write(bytes(range(32)))
     ops.append({"kind": "sign", "input": P("boot_root.suit"), "key": "es", "kid": 0x4000AA00, "alg": "es-256", "keys": kd, "family": "sign"})
     ops.append({"kind": "sign", "input": P("boot_app.suit"), "key": "ed", "kid": 7, "alg": "eddsa", "keys": kd, "family": "sign"})
+    # an envelope that is already signed, signed again under each of the three actions (what one run decides must not reach the next signing)
+    prep.append({"kind": "sign", "input": P("boot_rad.suit"), "key": "ed", "kid": 9, "alg": "eddsa", "keys": kd, "family": "sign", "save_as": {"signed.suit": P("signed_rad.suit")}})
+    ops.append({"kind": "sign", "input": P("signed_rad.suit"), "key": "ed", "kid": 9, "alg": "eddsa", "keys": kd, "action": "skip", "family": "sign"})
+    ops.append({"kind": "sign", "input": P("signed_rad.suit"), "key": "es", "kid": 10, "alg": "es-256", "keys": kd, "action": "remove-old", "family": "sign"})
+    ops.append({"kind": "sign", "input": P("signed_rad.suit"), "key": "es", "kid": 11, "alg": "es-256", "keys": kd, "action": "error", "family": "sign", "expect_error": True})
     ops.append({"kind": "encrypt", "input": P("blob2.bin"), "key": "aes", "kid": 0x40022000, "hash": "sha-256", "keys": kd, "family": "encrypt"})
     ops.append({"kind": "encrypt", "input": P("blob1.bin"), "key": "aes", "kid": 5, "hash": "sha-512", "keys": kd, "family": "encrypt", "reads": [P("blob1.bin")]})
     pool = {"root": root, "ops": prep + ops, "files": files, "nprep": len(prep)}
     with open(P("pool.json"), "w") as fh:
         json.dump(pool, fh)
     if not os.path.exists(P("prepared")):
-        res = references(pool, list(range(len(prep))))
+        res = _prepare_in_waves(pool, prep)
         bad = {i: r for i, r in res.items() if "ok" not in r}
         for i in list(bad):
             # an input envelope the tool refuses to create from one rendering: build it with the reference encoder so that the pool is
@@ -290,6 +301,32 @@ def fresh(pool, i, hashseed=0, cwd=None, guard=True):
         out = json.load(fh)
     os.unlink(res)
     return out
+
+
+def _prepare_in_waves(pool, prep):
+    """Preparation steps run in fresh interpreters, in parallel - but a step that reads what another step writes (named in its own fields or
+    in the description file it reads) waits for that step: waves in dependency order."""
+    outs = {i: [v for v in op.get("save_as", {}).values()] for i, op in enumerate(prep)}
+    text = {}
+    for i, op in enumerate(prep):
+        t = json.dumps({k: v for k, v in op.items() if k != "save_as"})
+        inp = op.get("input")
+        if isinstance(inp, str) and os.path.exists(inp) and os.path.getsize(inp) < 2_000_000:
+            try:
+                with open(inp, "r", errors="replace") as fh:
+                    t += fh.read()
+            except OSError:
+                pass
+        text[i] = t
+    deps = {i: {j for j in outs if j != i and any(o in text[i] for o in outs[j])} for i in outs}
+    done, res = set(), {}
+    while len(done) < len(prep):
+        wave = [i for i in range(len(prep)) if i not in done and deps[i] <= done]
+        if not wave:
+            wave = [i for i in range(len(prep)) if i not in done]  # a cycle cannot be ordered: all at once, as before
+        res.update(references(pool, wave))
+        done.update(wave)
+    return res
 
 
 def references(pool, indices, **kw):
@@ -457,10 +494,14 @@ def run_shard(ctx, spec):
         errs = [i for i in range(n) if "ok" not in refs[i] and not pool["ops"][i].get("expect_error")]
         if errs and not acc.failures:
             raise boot.HarnessError(f"pool operations fail on their own: {[describe(pool['ops'][i]) for i in errs]} -> {[refs[i] for i in errs]}")
+        # an operation that was meant to be refused and is accepted takes part with the result it has on its own (the property is about the
+        # dependence on order, process history and hash seed, not about refusal) - but most of them must really be refused, or the pool no
+        # longer exercises the state left behind by failures
         accepted = [i for i in range(n) if "ok" in refs[i] and pool["ops"][i].get("expect_error")]
-        if accepted and not acc.failures:
+        meant = sum(1 for op in pool["ops"] if op.get("expect_error"))
+        if len(accepted) * 2 > meant and not acc.failures:
             raise boot.HarnessError(f"pool operations meant to be refused are accepted on their own: {[describe(pool['ops'][i]) for i in accepted]}")
-        acc.note("refused-operations-in-pool", sum(1 for op in pool["ops"] if op.get("expect_error")))
+        acc.note("refused-operations-in-pool", meant - len(accepted))
         return acc
     idx = [i for i in range(n) if guard or not pool["ops"][i].get("heavy_when_logging")]
     refs = {(i, tuple(0 for _ in pool["ops"][i].get("reads", [])) or 0): r for i, r in references(pool, idx, guard=guard).items()}
